@@ -82,6 +82,8 @@ var c11Names = []string{
 var c11QTypes = []uint16{
 	dns.TypeA, dns.TypeAAAA, dns.TypeHTTPS,
 	dns.TypeTXT, dns.TypeCNAME, dns.TypeSVCB, dns.TypeANY,
+	// Types that differ from the filterable ones in the high octet only.
+	dns.TypeCAA, dns.TypeAAAA + 256, dns.TypeHTTPS + 256,
 }
 
 // c11IDs are the three hash-prefix filters of the statement ("dangerous,
